@@ -41,9 +41,9 @@ def list_line(kind):
         if op == "sort": return f"7 {o['l']}"
         if op == "concat": return f"8 {o['d']} {o['src']}"
         if op == "swap": return f"9 {o['a']} {o['b']}"
-        if op == "find": return f"10 {o['l']} {o['v']} {b01(o['rev'])}"
+        if op == "find": return f"10 {o['l']} {o['v']} {b01(o['rev'])} {o.get('key', 0)}"
         if op == "foreach":
-            return f"11 {o['l']} {b01(o['rev'])} {o['stop']} {b01(o['er'])}" if d else f"11 {o['l']} {o['stop']} {b01(o['er'])}"
+            return f"11 {o['l']} {b01(o['rev'])} {o['stop']} {b01(o['er'])} {b01(o.get('nest', False))}" if d else f"11 {o['l']} {o['stop']} {b01(o['er'])}"
         if op == "clear": return f"12 {o['l']}"
         if op == "peek": return f"13 {o['l']}"
         raise HarnessError(f"no driver line for generated operation {o}")
